@@ -180,6 +180,50 @@ def make_extremes(t, byteorder, wordorder):
     return extremes
 
 
+def make_misc(byteorder, wordorder):
+    """less-travelled API: skip_bytes, reset (builder and decoder), strings of odd length, a 16-bit group of bits,
+    a builder seeded with an existing payload, to_registers on an odd total length"""
+    def misc(data: bytes) -> bool:
+        from pymodbus.payload import BinaryPayloadBuilder, BinaryPayloadDecoder
+        assume(len(data) == 9)
+        b = BinaryPayloadBuilder(byteorder=byteorder, wordorder=wordorder)
+        u16 = be_int(data[0:2])
+        s5 = data[2:7]
+        bits = [bit_of(data[7], k) for k in range(8)] + [bit_of(data[8], k) for k in range(8)]
+        b.add_16bit_uint(u16)
+        b.add_string(s5)
+        b.add_bits(bits)
+        img = b.to_string()
+        exp = image_of("u16", data[0:2], byteorder, wordorder) + s5 + data[7:9]
+        if not same(img, exp, "image"):
+            return False
+        d = BinaryPayloadDecoder(img, byteorder=byteorder, wordorder=wordorder)
+        d.skip_bytes(2)
+        if not same(d.decode_string(5), s5, "string after skip_bytes"):
+            return False
+        got_bits = d.decode_bits() + d.decode_bits()
+        if not same(got_bits, bits, "16 bits"):
+            return False
+        d.reset()
+        if not same(d.decode_16bit_uint(), u16, "value after decoder reset"):
+            return False
+        regs = b.to_registers()
+        if len(regs) != 5:
+            explain("%d registers for 9 bytes", len(regs))
+            return False
+        d2 = BinaryPayloadDecoder.fromRegisters(regs, byteorder=byteorder, wordorder=wordorder)
+        if not same(d2.decode_16bit_uint(), u16, "via registers"):
+            return False
+        # a builder seeded with an existing payload list appends to it
+        b2 = BinaryPayloadBuilder(payload=[img], byteorder=byteorder, wordorder=wordorder)
+        b2.add_8bit_uint(data[0])
+        if not same(b2.to_string(), img + data[0:1], "seeded builder"):
+            return False
+        b.reset()
+        return same(b.to_string(), b"", "builder after reset")
+    return misc
+
+
 SINGLES = ["u8", "i8", "u16", "i16", "u32", "i32", "u64", "i64", "f16", "f32", "f64", "bits", "str3"]
 SEQS_QUICK = [("u8", "u32"), ("i16", "f32", "u8"), ("str3", "i64"), ("bits", "u16", "i32")]
 SEQS_THOROUGH = SEQS_QUICK + [("u64", "i8", "f64"), ("f16", "u8", "u8"), ("i32", "i32", "i32"), ("u8", "u8", "u8"),
@@ -198,6 +242,10 @@ def obligations(tier):
                 out.append(Obl(name, make_seq(types, bo, wo), timeout=T, contracts=contracts,
                                bounds="values of types %s: every bit pattern (%d symbolic bytes); byteorder %s, wordorder %s; raw and register transport" % (
                                    list(types), sum(TYPES[t][0] for t in types), bo, wo)))
+    for bo in (">", "<"):
+        for wo in (">", "<"):
+            out.append(Obl("misc.byte%s.word%s" % ("BE" if bo == ">" else "LE", "BE" if wo == ">" else "LE"), make_misc(bo, wo), timeout=T,
+                           contracts=("bits",), bounds="u16 + 5-byte string + 16 bits (9 symbolic bytes): skip_bytes, decoder/builder reset, odd total length via registers, builder seeded with a payload"))
     for t in ("f16", "f32", "f64"):
         for bo in (">", "<"):
             for wo in (">", "<"):
